@@ -1169,3 +1169,69 @@ for kind, file_, make in (('Client', 'circuits/net/sockets.py', CLIENT_MAKE), ('
                          ep__close_post(kind), calls=calls, cover=['return'],
                          clause='%s._close: exactly one %s per live endpoint, poller and buffer released, nothing sent'
                                 % (kind, 'disconnected' if kind == 'Client' else 'closed'), **mk))
+
+
+# ----------------------------------------------------------------------------- Server._accept: one hand-over per accepted connection
+# "connect exactly once": _on_accept_done (above) fires the one connect for the socket it is given; _accept must give it every
+# accepted connection exactly once, and nothing when accept() refused.  The TLS branch (secure servers: handshake generator) is
+# outside the statement and not decided here: the contract assumes a plain-text server.
+ACC_FIELDS = dict(SRV_FIELDS, secure=Bool)
+
+
+def acc_setup(I):
+    self = obj(I, 'self', 'Server')
+    I.assume(z3.Not(I.fz(self, 'secure')), 'plain-text server (the TLS handshake path is not decided)')
+    I.st.ghost['ACCEPTED'] = []
+    I.st.ghost['HANDED'] = []
+    return {'self': self}
+
+
+def s_sock_accept(I, recv, args, kw):
+    """TRUSTED socket.accept(): a new connected socket and its address, or OSError(errno) with no connection taken"""
+    I.st.trusted_used.add('socket.accept returns (new socket, address) or raises OSError(errno) having accepted nothing')
+    if I.st.choice(2, 'accept') == 0:
+        ns = I.st.fresh_ref('socket')
+        I.st.ghost['ACCEPTED'].append(ns)
+        return VTuple([ns, VTuple([VStr(core.fresh('host', S())), VInt(core.fresh('port', z3.IntSort()))])])
+    errno = core.fresh('accept_errno', z3.IntSort())
+    I.st.inputs['accept.errno'] = errno
+    I.st.ghost['ACCEPT_ERRNO'] = errno
+    lib.raise_(I, 'OSError', VInt(errno))
+
+
+def s_accept_done(I, recv, args, kw):
+    I.st.ghost['HANDED'].append(args[0])
+    return NONE
+
+
+def acc_post(I, outcome, ctx):
+    import errno as E
+    kind, v = outcome
+    g = I.st.ghost
+    acc, handed = g['ACCEPTED'], g['HANDED']
+    if kind == 'raise':
+        cover(I, 'refused_hard')
+        en = g.get('ACCEPT_ERRNO')
+        I.oblige('only_an_unexpected_accept_error_escapes', z3.BoolVal(v.cls == 'OSError' and en is not None and not acc))
+        if en is not None:
+            I.oblige('transient_accept_errors_are_swallowed',
+                     z3.And(*[en != getattr(E, n) for n in ('EWOULDBLOCK', 'EAGAIN', 'EPERM', 'EMFILE', 'ENOBUFS', 'ENFILE', 'ENOMEM', 'ECONNABORTED')]),
+                     detail='an accept() that merely found nothing to accept must not raise into the loop')
+        I.oblige('nothing_handed_over_without_a_connection', z3.BoolVal(len(handed) == 0))
+        return
+    cover(I, 'return')
+    I.oblige('each_accepted_connection_is_handed_over_exactly_once', z3.BoolVal(len(handed) == len(acc) and len(acc) <= 1),
+             detail='%d accepted, %d handed to _on_accept_done' % (len(acc), len(handed)))
+    for a_, h_ in zip(acc, handed):
+        cover(I, 'accepted')
+        I.oblige('the_socket_handed_over_is_the_accepted_one', h_.t == a_.t)
+    if not acc:
+        cover(I, 'refused_soft')
+        I.oblige('nothing_handed_over_without_a_connection', z3.BoolVal(len(handed) == 0))
+
+
+SPECS.append(FucSpec('C12', 'circuits/net/sockets.py', 'Server._accept', acc_setup, acc_post, fields=ACC_FIELDS,
+                     calls={'self._sock.accept': s_sock_accept, 'self._on_accept_done': s_accept_done},
+                     cover=['return', 'accepted', 'refused_soft', 'refused_hard'],
+                     clause='_accept (plain-text server): every connection accept() returns is handed to _on_accept_done exactly once '
+                            '(which fires the one connect); an accept() that raises hands over nothing; only an unexpected errno escapes'))
